@@ -3,6 +3,7 @@
 -/
 import Kingdon.Lemmas.GpDen
 import Kingdon.Lemmas.Products
+import Kingdon.Lemmas.CfgAlgebra
 namespace Kingdon.C02
 open Finsupp
 variable {α : Type} [CommRing α]
@@ -31,6 +32,16 @@ theorem clifford_product_assoc {s : Nat → Nat → Int} (hs : IsCocycle s) (a b
 theorem gp_refines (c : Cfg) (hr : TableRange c.computeSign) (x y : MV α) :
     den (gp c x y) = clMulS c.computeSign (den x) (den y) :=
   gp_den c hr x y
+
+/-- C02 for every admissible configuration, with the product proved associative on multivectors of the algebra -/
+theorem gp_refines_admissible (c : Cfg) (h : c.admissible = true) (x y : MV α) :
+    den (gp c x y) = clMulS c.computeSign (den x) (den y) :=
+  gp_den c (Cfg.tableRange_of_adm c (Cfg.adm_of_admissible c h)) x y
+
+theorem product_associative (c : Cfg) (h : c.admissible = true) (a b d : ℕ →₀ α)
+    (ha : InRange c a) (hb : InRange c b) (hd : InRange c d) :
+    clMulS c.computeSign (clMulS c.computeSign a b) d = clMulS c.computeSign a (clMulS c.computeSign b d) :=
+  clMulS_assoc_cfg c (Cfg.adm_of_admissible c h) a b d ha hb hd
 
 /-- non-vacuity of `SigOK`: 3DPGA -/
 example : SigOK [0, 1, 1, 1] := by intro s hs; simp at hs; rcases hs with rfl | rfl <;> simp
